@@ -67,12 +67,45 @@ def make_input(sig, D, sp, rng, integer=True, order=None):
     return blocks
 
 
+_REGISTRY = []  # (MultiImage handed to the library, its numpy source blocks, key order, flags) of the current case
+
+
 def to_mi(blocks, D, flags, order=None):
     import jax.numpy as jnp
     import ginjax.geometric as geom
 
     order = list(blocks) if order is None else order
-    return geom.MultiImage({kp: jnp.asarray(blocks[kp]) for kp in order}, D, flags)
+    mi = geom.MultiImage({kp: jnp.asarray(blocks[kp]) for kp in order}, D, flags)
+    if len(_REGISTRY) < 20000:
+        _REGISTRY.append((mi, {kp: blocks[kp] for kp in order}, list(order), tuple(flags) if isinstance(flags, (tuple, list)) else flags))
+    return mi
+
+
+def mutated_inputs(clear=True):
+    """Which of the input objects built by to_mi in this case no longer hold what they were built from?
+
+    The equivariance identities f(g.x) == g.f(x) are evaluated by the harness from the numpy source of x; a user holds
+    the OBJECT x, calls f(x) and then forms g.x from that same object. If the call changed the object in place the
+    identity fails for that user although each call on a fresh object is right. Returns a list of short descriptions."""
+    out = []
+    for mi, src, order, flags in _REGISTRY:
+        try:
+            keys = [tuple(k) for k in mi.keys()]
+            if keys != [tuple(k) for k in order]:
+                out.append(f"types/order {keys} != {order}")
+                continue
+            for kp in order:
+                now = np.asarray(mi[kp])
+                if now.shape != np.asarray(src[kp]).shape or not np.array_equal(now, np.asarray(src[kp]).astype(now.dtype)):
+                    out.append(f"block {tuple(kp)} changed (shape {now.shape} vs {np.asarray(src[kp]).shape})")
+                    break
+        except Exception as e:  # a deleted/donated buffer is a change as well
+            out.append(f"unreadable after the call: {type(e).__name__}")
+        if len(out) >= 3:
+            break
+    if clear:
+        _REGISTRY.clear()
+    return out
 
 
 def act_blocks(blocks, g, D, lead=1):
